@@ -80,6 +80,10 @@ TARGETED = {
     "host-walrus-in-comprehension-scopes": "def f():\n    t = 0\n    def g():\n        return t\n    r = [(t := t + i) for i in range(3)]\n    return r, t, g()\nprint(f())\nu = [(w := i) for i in range(2)]\nprint(u, w)\n",
     "host-method-super-and-comprehension": "class B:\n    def m(self):\n        return 'B'\nclass C(B):\n    tags = ['x', 'y']\n    def m(self):\n        return [super(C, self).m() + t for t in self.tags], [t for t in C.tags]\nprint(C().m())\n",
     "host-genexp-in-class-and-function": "g = 2\nclass K:\n    n = sum(i * g for i in range(3))\n    def m(self, k=g):\n        return sum(i * k * g for i in range(3))\ndef f(a):\n    return sum(i * a * g for i in range(3)), max((a for _ in range(1)))\nprint(K.n, K().m(), f(3))\n",
+    "host-class-nested-comprehension-globals": "g2 = 'global-g2'\nh2 = 'global-h2'\nclass K:\n    rows = [1, 2]\n    a = [[g2 for _ in range(1)] for r in rows]\n    b = [(lambda: h2)() for r in rows]\n    c = [[len(str(r)) for _ in range(1)] for r in rows]\n    d = {r: {abs(r): sorted([r])} for r in rows}\n    e = list((max(q for q in [r, 0]) for r in rows))\nprint(K.a, K.b, K.c, K.d, K.e)\n",
+    "host-class-in-function-nested-comprehension": "g3 = 'global-g3'\ndef mk(p):\n    class K:\n        a = [[(p, g3) for _ in range(1)] for r in range(2)]\n        b = [(lambda: (p, g3))() for r in range(1)]\n        c = [[min(r, 1) for _ in range(1)] for r in range(2)]\n    return K.a, K.b, K.c\nprint(mk('param'))\n",
+    "super-in-loops-of-methods": "class B:\n    def who(self):\n        return 'B'\n    @classmethod\n    def make(cls):\n        return cls.__name__\nclass C(B):\n    def who(self):\n        out = []\n        for i in range(2):\n            out.append(super().who() + str(i))\n        n = 0\n        while n < 1:\n            n += 1\n            out.append(super().who())\n        return out\n    @classmethod\n    def make(cls):\n        for _ in range(1):\n            r = super().make()\n        return r\nprint(C().who(), C.make())\n",
+    "builtin-named-comprehension-variable": "def f():\n    r = [len for len in [1, 2]]\n    def g():\n        return len('ab')\n    return r, g()\nprint(f())\ndef h():\n    def k():\n        global abs\n        return abs(-3)\n    abs = 5\n    return k(), abs\nprint(h())\n",
     "matrix-mult-and-ops": "class M:\n    def __matmul__(s, o):\n        return 'mm'\n    def __imatmul__(s, o):\n        return 'imm'\nm = M()\nprint(m @ 1)\nm @= 2\nprint(m, 7 // 2, 2 ** -1, ~5, 5 >> 1)\n",
 }
 
@@ -172,7 +176,10 @@ def run_shard(rec):
                 if findings.attribute(trig, err):
                     rec.known_finding(findings.attribute(trig, err))
                 else:
-                    rec.count("host-conversion-refused:" + err)
+                    # every program of this pool is in the supported fragment: a host that refuses it produces no text
+                    # at all for the runtimes (host-specific refusals are exactly what the version-specific code paths risk)
+                    rec.violation("host-refuses:" + err, {"name": name, "src": src, "cfg": list(cfg), "out": None, "runtime": "-",
+                                                          "host": "%d.%d" % host}, None)
                 continue
             key = rt.h8(c10.normalise(out))
             if key in seen:
@@ -252,7 +259,10 @@ def replay(case, rec):
     try:
         out, err = observe.convert(case["src"], tuple(case["cfg"]))
         if err:
-            rec.inconc("host-conversion-refused")
+            rec.violation("host-refuses:" + err, case, None)
+            return
+        if case.get("runtime") in (None, "-"):
+            rec.ok(case)
             return
         json.dump([{"id": 0, "src": case["src"], "out": out}], open(os.path.join(work, "r.json"), "w"))
         py = envs.interpreter(case["runtime"])
